@@ -13,6 +13,7 @@ import (
 	"strings"
 
 	"Havoc/pkg/agent"
+	"Havoc/pkg/common/parser"
 
 	"verifharness/internal/gen"
 )
@@ -205,3 +206,5 @@ func genArg(r *gen.Rng) any {
 		return int(r.Intn(1000))
 	}
 }
+
+func newParser(b []byte) *parser.Parser { return parser.NewParser(b) }
